@@ -279,6 +279,8 @@ def main(mod, argv):
         if hasattr(mod, 'relevant'):
             # a check that re-runs the inputs of other families judges only its own kind of failure
             failures = [f for f in failures if mod.relevant(f)]
+        if hasattr(mod, 'judge'):
+            failures = [f for f in failures if mod.judge(f)]     # a check may restrict which verdict kinds it judges (C16: FATAL only)
 
         known = [k for k in load_known() if k.get('property') == pid and k.get('status') == 'known']
         seen_known = {}
